@@ -451,6 +451,65 @@ fn classify_analysis_error(e: &parol_runtime::ParolError) -> (String, BTreeSet<S
     (format!("other:{}", crate::bind::fmt_err(e)), BTreeSet::new())
 }
 
+/// Grammars with 4 (5) non-terminals whose shape is all that matters for the closures: every
+/// non-terminal has one main alternative `X` or `X t` and optionally `t` and/or the empty one.
+fn chain_grammars(tier: Tier) -> Vec<Gram> {
+    let mut out = vec![];
+    let sizes: &[usize] = tier.pick(&[4], &[4, 5]);
+    for &n in sizes {
+        // options per non-terminal
+        let mut opts: Vec<Alts> = vec![];
+        for x in 0..=n {
+            let first = if x == n { Fac::T(0) } else { Fac::N(x as u8) };
+            for suffix in [false, true] {
+                let mut main = vec![first.clone()];
+                if suffix {
+                    main.push(Fac::T(0));
+                }
+                let extras: &[(bool, bool)] = if n == 4 && tier == Tier::Thorough { &[(false, false), (true, false), (false, true), (true, true)] } else { &[(false, false), (true, false)] };
+                for (with_t, with_eps) in extras {
+                    let mut a = vec![main.clone()];
+                    if *with_t && main != vec![Fac::T(0)] {
+                        a.push(vec![Fac::T(0)]);
+                    }
+                    if *with_eps {
+                        a.push(vec![]);
+                    }
+                    opts.push(a);
+                }
+            }
+        }
+        opts.dedup();
+        if n == 5 {
+            // keep the 5-non-terminal family small: main alternative only, plus `t` for the last
+            opts.retain(|a| a.len() == 1);
+        }
+        let total = opts.len().pow(n as u32);
+        for code in 0..total {
+            let mut c = code;
+            let mut prods = vec![];
+            for i in 0..n {
+                let mut a = opts[c % opts.len()].clone();
+                c /= opts.len();
+                if n == 5 && i == n - 1 {
+                    a.push(vec![Fac::T(0)]);
+                }
+                prods.push((i as u8, a));
+            }
+            for scheme in 0..2 {
+                let mut g = Gram::simple(1, 1, prods.clone(), false);
+                g.nts = if scheme == 0 {
+                    ["S", "A", "B", "C", "D"][..n].iter().map(|s| s.to_string()).collect()
+                } else {
+                    ["A", "B", "C", "D", "Z"][5 - n..].iter().map(|s| s.to_string()).collect::<Vec<_>>().into_iter().enumerate().map(|(i, s)| if i == 0 { "A0".to_string() } else { s }).collect()
+                };
+                out.push(g);
+            }
+        }
+    }
+    out
+}
+
 // ---------------------------------------------------------------------------------------------
 // C12
 // ---------------------------------------------------------------------------------------------
@@ -557,14 +616,27 @@ pub fn run(id: &str, tier: Tier, replay: Option<&str>) -> i32 {
             (v, format!("every productive and reachable canonical BNF grammar of {bsp:?} (left-recursive ones included; plus the prefix-group family: S with 2-3 groups of 2-3 alternatives sharing a first terminal, suffixes from a menu incl. the empty one and a second non-terminal named A / SSuffix / SSuffix0 / SSuffix1; also with the second non-terminal named SSuffix/SSuffix0/SSuffix1) and every canonicalized EBNF body of the C09 space; left_factor run under a 20 s watchdog; oracle: L<={n} of every original non-terminal unchanged, no two alternatives of one non-terminal start with an equal Symbol. Non-trivial = left factoring changed the grammar."))
         }
         "C11" => {
-            let v = enum_bnf(&bsp, false);
-            (v, format!("every canonical BNF grammar of {bsp:?} including non-productive, unreachable and (hidden) left-recursive ones; oracle: nullable / productive / reachable / left-recursive closures written from the definitions; check_and_transform_grammar must return the matching error kind with exactly the reference names (non-productive first, then unreachable, then - LL only - left recursion) and Ok otherwise. Non-trivial = at least one of the sets non-empty."))
+            let mut v = enum_bnf(&bsp, false);
+            v.extend(chain_grammars(tier));
+            (v, format!("every canonical BNF grammar of {bsp:?} including non-productive, unreachable and (hidden) left-recursive ones, plus the chain family: 4 non-terminals (thorough also 5), each with one main alternative `X` or `X t` (X any non-terminal or the terminal) and optionally the alternatives `t` and empty, under two naming schemes (start symbol alphabetically last / first); oracle: nullable / productive / reachable / left-recursive closures written from the definitions; check_and_transform_grammar must return the matching error kind with exactly the reference names (non-productive first, then unreachable, then - LL only - left recursion) and Ok otherwise. Non-trivial = at least one of the sets non-empty."))
         }
         _ => {
             let mut v = enum_bnf(&bsp, true);
             v.retain(|g| Bnf::of(g).well_formed_lr());
+            // decorated occurrences of the start symbol (clipped, member name, user type)
+            let rec: Vec<Gram> = v.iter().filter(|g| g.prods.iter().any(|(_, a)| a.iter().any(|s| s.contains(&Fac::N(0))))).cloned().collect();
+            for (i, g) in rec.iter().enumerate() {
+                for (j, d) in ["^", "@m", " : crate::T", "@m : crate::T"].iter().enumerate() {
+                    if tier == Tier::Quick && (i + j) % 2 != 0 {
+                        continue;
+                    }
+                    let mut g2 = g.clone();
+                    g2.deco = vec![d.to_string()];
+                    v.push(g2);
+                }
+            }
             v.extend(ebnf_space(tier, true));
-            (v, format!("every productive and reachable canonical BNF grammar of {bsp:?} and the C09 EBNF bodies with %grammar_type 'LALR(1)'; oracle on the result of check_and_transform_grammar(.., LALR1): same L<={n}, start symbol has exactly one production and occurs on no right-hand side. Non-trivial = start symbol recursive or with several productions."))
+            (v, format!("every productive and reachable canonical BNF grammar of {bsp:?} (those with a recursive start symbol also with every occurrence of it decorated by ^, @m, : type) and the C09 EBNF bodies with %grammar_type 'LALR(1)'; oracle on the result of check_and_transform_grammar(.., LALR1): same L<={n}, start symbol has exactly one production and occurs on no right-hand side. Non-trivial = start symbol recursive or with several productions."))
         }
     };
     acc.count("grammars_enumerated", grams.len() as u64);
